@@ -25,6 +25,7 @@ JDN_9999_12_31 == 5373484
 IsLeap(y) == IF y <= 1582 THEN y % 4 = 0
              ELSE (y % 4 = 0 /\ y % 100 # 0) \/ (y % 400 = 0)
 
+\* @type: Seq(Int);
 NominalDim == <<31, 28, 31, 30, 31, 30, 31, 31, 30, 31, 30, 31>>
 
 (* highest day number a month can carry (31 for October 1582) *)
@@ -45,6 +46,7 @@ Valid(y, m, d) ==
     /\ ~InGap(y, m, d)
 
 (* the civil day after <<y,m,d>> *)
+\* @type: (Int, Int, Int) => <<Int, Int, Int>>;
 Succ(y, m, d) ==
     IF y = 1582 /\ m = 10 /\ d = 4 THEN <<1582, 10, 15>>
     ELSE IF d < LastDayNo(y, m) THEN <<y, m, d + 1>>
@@ -52,6 +54,7 @@ Succ(y, m, d) ==
     ELSE <<y + 1, 1, 1>>
 
 (* the civil day before <<y,m,d>> *)
+\* @type: (Int, Int, Int) => <<Int, Int, Int>>;
 Pred(y, m, d) ==
     IF y = 1582 /\ m = 10 /\ d = 15 THEN <<1582, 10, 4>>
     ELSE IF d > 1 THEN <<y, m, d - 1>>
@@ -59,6 +62,7 @@ Pred(y, m, d) ==
     ELSE <<y - 1, 12, 31>>
 
 (* lexicographic order on dates *)
+\* @type: (<<Int, Int, Int>>, <<Int, Int, Int>>) => Bool;
 DateLess(a, b) ==
     \/ a[1] < b[1]
     \/ a[1] = b[1] /\ a[2] < b[2]
@@ -76,6 +80,7 @@ OnOrAfterSwitch(y, m, d) ==
 (* closed-form day number of an existing date *)
 JDN(y, m, d) ==
     LET lp  == IF m > 2 THEN 1 ELSE 0
+        \* @type: Seq(Int);
         cum == <<0, 31, 59, 90, 120, 151, 181, 212, 243, 273, 304, 334>>
     IN IF OnOrAfterSwitch(y, m, d)
        THEN JDN_GREG_EPOCH + DaysBeforeYearGreg(y) + cum[m]
@@ -86,13 +91,16 @@ JDN(y, m, d) ==
 Min2(a, b) == IF a < b THEN a ELSE b
 
 (* month and day from a 0-based day-of-year under a given leap flag *)
+\* @type: (Int, Bool) => <<Int, Int>>;
 MonthDayOf(doy, leap) ==
-    LET cum == IF leap THEN <<0, 31, 60, 91, 121, 152, 182, 213, 244, 274, 305, 335, 366>>
+    LET \* @type: Seq(Int);
+        cum == IF leap THEN <<0, 31, 60, 91, 121, 152, 182, 213, 244, 274, 305, 335, 366>>
                        ELSE <<0, 31, 59, 90, 120, 151, 181, 212, 243, 273, 304, 334, 365>>
         m   == CHOOSE k \in 1..12 : cum[k] <= doy /\ doy < cum[k + 1]
     IN <<m, doy - cum[m] + 1>>
 
 (* date of a day number (inverse of JDN), by cycle arithmetic *)
+\* @type: Int => <<Int, Int, Int>>;
 DateOf(j) ==
     IF j >= JDN_1582_10_15
     THEN LET a    == j - JDN_GREG_EPOCH
